@@ -21,7 +21,7 @@ func init() { gens["C02"] = genC02 }
 type c02File struct {
 	Name    string      `json:"name"`
 	Labels  [][2]string `json:"labels,omitempty"`
-	Content string      `json:"content"` // Go-quoted
+	Content string      `json:"content"`        // Go-quoted
 	Take    *int        `json:"take,omitempty"` // the caller stops after this many Scans, then Resets
 }
 type c02Input struct {
